@@ -1576,6 +1576,20 @@ _EXC_PARENTS = {"KeyError": "LookupError", "IndexError": "LookupError", "LookupE
                 "JSONDecodeError": "ValueError", "AssertionError": "Exception", "OSError": "Exception", "RecursionError": "RuntimeError"}
 
 
+def _builtin_exc_parents() -> Dict[str, str]:
+    """the hierarchy of the built-in exception classes of the analysing interpreter, read as data"""
+    import builtins as _b
+    out: Dict[str, str] = {}
+    for nm in dir(_b):
+        c = getattr(_b, nm)
+        if isinstance(c, type) and issubclass(c, BaseException) and c is not BaseException and c.__name__ == nm:
+            out[nm] = c.__mro__[1].__name__
+    return out
+
+
+_EXC_PARENTS = {**_builtin_exc_parents(), **_EXC_PARENTS}
+
+
 def exc_is(name: str, handler_name: str, extra: Optional[Dict[str, str]] = None) -> bool:
     parents = dict(_EXC_PARENTS)
     if extra:
